@@ -105,11 +105,55 @@ def prop_respell(case, res):
         res.sample({'mod': name, 'ascii': a, 'respelt': b, 'validate': oa[1]})
 
 
+def prop_translate(case, res):
+    """A foreign numeric character that a module accepts in place of a digit must carry exactly that decimal value
+    (modules with their own digit clean-up on top of util.clean, e.g. Arabic-Indic digits in eg.tn)."""
+    name = case['mod']
+    m = core.number_modules()[name]
+    a, i, ch = case['ascii'], case['pos'], core.dec(case['ch'])
+    x = a[:i] + ch + a[i + 1:]
+    res.evals += 1
+    o = core.out(m.validate, x)
+    if o[0] != 'ok' or not isinstance(o[1], str) or not o[1].isascii():
+        return  # rejected, or passed through untranslated (a C15 matter)
+    res.nt(name, a, i, ch)
+    res.hist['translated-by-module:' + name] += 1
+    d = unicodedata.decimal(ch, None)
+    if d is None:
+        res.violation('translate|%s|non-decimal-character-accepted-as-digit' % name, 'translate', case,
+                      {'input': x, 'returned': o[1], 'char': 'U+%04X %s' % (ord(ch), unicodedata.name(ch, '?')), 'category': unicodedata.category(ch)})
+        return
+    exp = core.out(m.validate, a[:i] + str(d) + a[i + 1:])
+    if exp != o:
+        res.violation('translate|%s|translated-to-wrong-digit' % name, 'translate', case,
+                      {'input': x, 'returned': o[1], 'char': 'U+%04X' % ord(ch), 'decimal': d, 'ascii-spelling-gives': [str(t) for t in exp]})
+
+
+def shard_translate(a):
+    import random
+    from vf.checks import c15
+    res = core.Result()
+    name = a['mod']
+    rnd = random.Random(core.subseed(a['seed'], 'C14', 'translate', name))
+    table = gen.lookalikes()
+    nondecimal = [c for v, cs in c15.DIGITS.items() for c in cs if unicodedata.decimal(c, None) is None and c not in table]
+    for v in gen.pool(name)[:a['nnum']]:
+        for i, c in enumerate(v):
+            if not (c.isdigit() and c.isascii()):
+                continue
+            same = [x for x in c15.DIGITS.get(int(c), []) if x not in table]
+            other = [x for x in c15.DIGITS.get((int(c) + 3) % 10, []) if x not in table]
+            picks = rnd.sample(same, min(len(same), a['k'])) + rnd.sample(other, min(len(other), 2)) + rnd.sample(nondecimal, min(len(nondecimal), a['k']))
+            for ch in picks:
+                prop_translate({'mod': name, 'ascii': v, 'pos': i, 'ch': core.enc(ch)}, res)
+    return res
+
+
 # the generic algorithm modules work on caller-supplied alphabets and do not clean their input
 GENERIC = ['luhn', 'verhoeff', 'damm', 'iso7064.mod_11_10', 'iso7064.mod_11_2', 'iso7064.mod_37_2', 'iso7064.mod_37_36',
            'iso7064.mod_97_10']
 
-SUBS = {'cp': prop_cp, 'str': prop_str, 'respell': prop_respell}
+SUBS = {'cp': prop_cp, 'str': prop_str, 'respell': prop_respell, 'translate': prop_translate}
 
 
 def shard_cp(a):
@@ -180,6 +224,12 @@ def run(ctx):
     res3 = core.run_shards(shard_respell, [{'shard': 'respell:' + n, 'mod': n, 'seed': ctx.seed, 'nnum': ctx.q(6, 60)}
                                            for n in mods if n not in GENERIC])
     res.merge(res3)
+    res4 = core.run_shards(shard_translate, [{'shard': 'translate:' + n, 'mod': n, 'seed': ctx.seed, 'nnum': ctx.q(2, 12), 'k': ctx.q(6, 40)}
+                                             for n in mods if n not in GENERIC])
+    res.merge(res4)
+    res.notes['modules_translating_foreign_digits_themselves'] = sorted(k.split(':', 1)[1] for k in res.hist if str(k).startswith('translated-by-module:'))
+    for k in [k for k in res.hist if str(k).startswith('translated-by-module:')]:
+        del res.hist[k]
     nmapped = len([k for k, v in gen.lookalikes().items() if k != v])
     covered = len([k for k in res.hist if str(k).startswith('respell U+')])
     res.notes['table_entries_nonidentity'] = nmapped
